@@ -40,6 +40,8 @@ def gen_cases(n, sd, thorough):
             d = rng.randint(10590, 24470)       # 1999 .. 2036
         tod = rng.choice([0, 0, 615, 870, 1, 869, 0, 0, 615, 870, 1, 869, 900, 1260, 1261, 1350, 1439])     # any time of day, also after the close
         span = rng.choice([0, 0, 1, 2, 3, 5, 7, 8, 13, 30, 31, 45, 62])
+        if rng.random() < 0.03:                  # a LONG history: more than a year (the same calendar month twice, seed C13-a14), several
+            span = rng.choice([200, 370, 400, 500, 760, 1100, 1500, 2200] if thorough else [200, 370, 400, 500, 760, 1500])    # years, year ends, > 1000 business days (seed C12-a14)
         etod = rng.choice([t for t in (0, 1, 615, 869, 870, 1260, 1439) if t >= tod])
         start, end = d * 1440 + tod, (d + span) * 1440 + etod
         if k > 0.95:                             # an end earlier than the start: must be rejected
@@ -196,7 +198,7 @@ def run(prop, replay_file=None):
             with open(os.path.join(w, "c.cfg"), "w") as fh:
                 fh.write("SPECIFICATION Spec\nINVARIANT InvC12\nINVARIANT InvC13\nINVARIANT InvLemma\nCHECK_DEADLOCK FALSE\n")
             try:
-                r = tlc.run(w, "MC_Clock", "c.cfg", workers=16, timeout=3000)
+                r = tlc.run(w, "MC_Clock", "c.cfg", workers=16, timeout=3000, stack="768m")
             except tlc.TLCError as e:
                 rep.machinery.append("TLC failed: %s" % str(e)[-1500:])
                 continue
